@@ -21,7 +21,7 @@ TRUSTED = ["xarray/numpy labelled indexing; libgomp"]
 def run(ctx):
     rep, rng, sc = ctx.rep, ctx.rng, ctx.scratch
     cases, wjobs, rjobs = [], [], []
-    n = 150 if ctx.thorough else 48
+    n = 800 if ctx.thorough else 48
     for k in range(n):
         fl = ["b2r", "r2b", "r2r", "none"][k % 4]
         impl, single = "openmp", False
